@@ -28,6 +28,8 @@ type C16Scn struct {
 	CancelOn   string            `json:"cancel_on,omitempty"`  // forced when a gate of this site class has parked
 	Pre        bool              `json:"pre,omitempty"`        // a cancelled request on an extension-bearing schema precedes the request
 	Ext        bool              `json:"ext,omitempty"`        // the judged schema has a (well-behaved, result-less) extension registered
+	ExtResult  bool              `json:"ext_result,omitempty"` // the extension contributes to Result.Extensions (part of the complete response)
+	ExtEndsCtx bool              `json:"ext_ends_ctx,omitempty"` // the extension's execution finish function cancels the request context (after the result was taken)
 	ExtDetach  bool              `json:"ext_detach,omitempty"` // the extension hands back contexts that are detached from the request\'s cancellation
 	Sticky     int               `json:"stickiness"`
 	// Second: after the judged call returned, the same client executes the same
@@ -190,6 +192,8 @@ func (p c16) Gen(seed uint64, enum int, tier string) json.RawMessage {
 	s.Pre = r.Chance(30)
 	s.Ext = r.Chance(30)
 	s.ExtDetach = s.Ext && r.Chance(40)
+	s.ExtResult = s.Ext && r.Chance(60)
+	s.ExtEndsCtx = s.ExtResult && r.Chance(40)
 	if r.Chance(75) {
 		qi := 0
 		for i, q := range c16Queries {
@@ -258,7 +262,7 @@ func (c16) Run(t TestingT, scn json.RawMessage, tape *Tape) *Outcome {
 	faults := sc.Faults
 
 	// reference: the same request run alone, cold, outside the simulator
-	soloW := NewWorld("A")
+	soloW := c16RefWorld(&sc)
 	soloRC := &ReqCtx{Task: "solo", W: soloW, Faults: expandStar(faults), AllThunk: sc.AllThunk, RootTok: Tok{T: "Query"}}
 	vars := c16Vars[sc.Query]
 	solo := ""
@@ -269,7 +273,7 @@ func (c16) Run(t TestingT, scn json.RawMessage, tape *Tape) *Outcome {
 	}
 	solo2 := ""
 	if sc.Second {
-		w2 := NewWorld("A")
+		w2 := c16RefWorld(&sc)
 		solo2 = c16Solo(w2, sc.Query, vars, &ReqCtx{Task: "solo", W: w2, Faults: c16SecondFaults, RootTok: Tok{T: "Query"}})
 	}
 
@@ -296,6 +300,7 @@ func (c16) Run(t TestingT, scn json.RawMessage, tape *Tape) *Outcome {
 	pan := Bubble(t, s, func() {
 		fakeStart = time.Now()
 		var w *World
+		var e1 *SimExt
 		if c16Probe != nil {
 			// run on behalf of C17: instrumented extensions whose log is judged there
 			c16Probe.Run = &ExtRun{HasResult: c16Probe.HasResult}
@@ -305,7 +310,8 @@ func (c16) Run(t TestingT, scn json.RawMessage, tape *Tape) *Outcome {
 			}
 			w = NewWorld("A", exts...)
 		} else if sc.Ext {
-			w = NewWorld("A", &SimExt{N: "E1", R: &ExtRun{HasResult: map[string]bool{}}, Detach: sc.ExtDetach})
+			e1 = &SimExt{N: "E1", R: &ExtRun{HasResult: map[string]bool{"E1": sc.ExtResult}}, Detach: sc.ExtDetach}
+			w = NewWorld("A", e1)
 		} else {
 			w = NewWorld("A")
 		}
@@ -342,7 +348,10 @@ func (c16) Run(t TestingT, scn json.RawMessage, tape *Tape) *Outcome {
 		default:
 			ctx, cancel = context.WithCancel(parent)
 		}
-		_ = cancel
+		if e1 != nil && sc.ExtEndsCtx && cancel != nil {
+			endCtx := cancel
+			e1.OnExecFinish = func() { endCtx() }
+		}
 		if sc.CtxKind != "none" && sc.CtxKind != "expired" {
 			a := s.AddAction("cancel", func() bool {
 				if cancelled {
@@ -515,7 +524,7 @@ func (c16) Run(t TestingT, scn json.RawMessage, tape *Tape) *Outcome {
 			}
 		}
 		if n > 0 {
-			w2 := NewWorld("A")
+			w2 := c16RefWorld(&sc)
 			rc2 := &ReqCtx{Task: "solo", W: w2, Faults: f2, AllThunk: sc.AllThunk, RootTok: Tok{T: "Query"}}
 			solo = c16Solo(w2, sc.Query, vars, rc2)
 		}
@@ -537,7 +546,7 @@ func (c16) Run(t TestingT, scn json.RawMessage, tape *Tape) *Outcome {
 		o.Nontrivial = true
 		return o
 	}
-	isCtxErr := func(r string) bool { return ctxErrText != "" && isExactlyError(r, ctxErrText) }
+	isCtxErr := func(r string) bool { return ctxErrText != "" && isExactlyError(r, ctxErrText, sc.Ext && sc.ExtResult) }
 	o.Nontrivial = idxCancel >= 0 && idxSend != -1 || idxCancel > 0
 	o.Sample = map[string]interface{}{"scenario": sc, "result": got, "cancel_idx": idxCancel, "send_idx": idxSend}
 	switch {
@@ -640,12 +649,25 @@ func c16SameStep(trace []Event, idxCancel, idxReturned int) bool {
 // isExactlyError reports whether a marshalled result carries no data, nothing
 // but the standard keys, and exactly one error whose message is msg and which
 // has no path (the shape of the rest of the error object is not judged).
-func isExactlyError(result, msg string) bool {
+// c16RefWorld builds a world for a reference run: like the judged one it has
+// the result-bearing extension when the scenario says so (its contribution is
+// part of the complete response).
+func c16RefWorld(sc *C16Scn) *World {
+	if sc.Ext && sc.ExtResult && c16Probe == nil {
+		return NewWorld("A", &SimExt{N: "E1", R: &ExtRun{HasResult: map[string]bool{"E1": true}}})
+	}
+	return NewWorld("A")
+}
+
+func isExactlyError(result, msg string, allowExtensions ...bool) bool {
 	var top map[string]json.RawMessage
 	if json.Unmarshal([]byte(result), &top) != nil {
 		return false
 	}
 	for k := range top {
+		if k == "extensions" && len(allowExtensions) > 0 && allowExtensions[0] {
+			continue // what the extensions contribute is collected for every returned result
+		}
 		if k != "data" && k != "errors" {
 			return false
 		}
